@@ -2,6 +2,7 @@ package verifrt
 
 import (
 	"fmt"
+	"reflect"
 	"unsafe"
 )
 
@@ -49,6 +50,64 @@ func Wr[T any, F any](x T, p *F, site string) T {
 		access(unsafe.Pointer(p), true, site)
 	}
 	return x
+}
+
+// RdElem records a read of x[i] when x is a slice (inserted at the head of the body of
+// `for i, v := range x`).
+func RdElem(x any, i any, site string) {
+	if S == nil {
+		return
+	}
+	if p := elemPtr(x, i); p != nil {
+		access(p, false, site)
+	}
+}
+
+func elemPtr(x any, i any) unsafe.Pointer {
+	v := reflect.ValueOf(x)
+	if v.Kind() != reflect.Slice {
+		return nil
+	}
+	iv := reflect.ValueOf(i)
+	var k int
+	switch {
+	case iv.CanInt():
+		k = int(iv.Int())
+	case iv.CanUint():
+		k = int(iv.Uint())
+	default:
+		return nil
+	}
+	if k < 0 || k >= v.Len() {
+		return nil
+	}
+	return v.Index(k).Addr().UnsafePointer()
+}
+
+// WrElem records a write of x[i] when x is a slice (the rewriter cannot tell a slice from
+// a map in the source text; maps and array values are left alone).
+func WrElem(x any, i any, site string) {
+	if S == nil {
+		return
+	}
+	v := reflect.ValueOf(x)
+	if v.Kind() != reflect.Slice {
+		return
+	}
+	iv := reflect.ValueOf(i)
+	var k int
+	switch {
+	case iv.CanInt():
+		k = int(iv.Int())
+	case iv.CanUint():
+		k = int(iv.Uint())
+	default:
+		return
+	}
+	if k < 0 || k >= v.Len() {
+		return // the assignment itself will panic
+	}
+	access(v.Index(k).Addr().UnsafePointer(), true, site)
 }
 
 func access(p unsafe.Pointer, write bool, site string) {
